@@ -31,6 +31,7 @@ Rel(origin, dest) == IF dest - origin = 0 /\ "jump0" \in Legacy THEN 1 ELSE dest
 \* ------------------------------------------------------------------ tokens
 TLit(c, id) == [t |-> "lit", v |-> c, s |-> "", id |-> id]
 TWord(s, id) == [t |-> "w", v |-> NilV, s |-> s, id |-> id]
+TBad(s, id)  == [t |-> "bad", v |-> NilV, s |-> s, id |-> id]
 
 \* ------------------------------------------------------------------ machine
 Ctx0 == [ds_len |-> 0, cs_len |-> 0, rs_len |-> 0, fs_len |-> 0, ls_len |-> 0, ss_ptr |-> 0,
@@ -41,7 +42,8 @@ Boot == [ code |-> <<>>, dbg |-> <<>>, dict |-> <<>>, heap |-> <<>>, input |-> <
           ctx |-> Ctx0, nested |-> <<>>,
           meter |-> 0, ilim |-> NoLimit, slim |-> NoLimit, hlim |-> NoLimit,
           rec |-> FALSE, rlog |-> <<>>, out |-> <<>>,
-          err |-> "none", errv |-> NilV, lasttok |-> 0, errtok |-> 0, srcs |-> 0 ]
+          err |-> "none", errv |-> NilV, lasttok |-> 0, errtok |-> 0, srcs |-> 0,
+          rf |-> FALSE ]      \* run_failed: the last run()/next() stopped on an error
 
 Ok(m)       == m.err = "none"
 Fail(m, k)  == IF Ok(m) THEN [m EXCEPT !.err = k] ELSE m
@@ -290,7 +292,7 @@ RECURSIVE Run(_)
 Run(m) == IF ~Ok(m) \/ ~Running(m) THEN m
           ELSE LET n == Step(m) IN
                IF Ok(n) THEN Run(n)
-               ELSE [n EXCEPT !.errtok = IF Ip(n) < Len(n.dbg) THEN n.dbg[Ip(n) + 1] ELSE 0]
+               ELSE [n EXCEPT !.errtok = IF Ip(n) < Len(n.dbg) THEN n.dbg[Ip(n) + 1] ELSE 0, !.rf = TRUE]
 
 \* ------------------------------------------------------------------ reverse step
 Undo(m, e) ==
@@ -565,7 +567,9 @@ Build(m0, depth0) ==
        IF Len(m.nested) # depth0 THEN Fail(m, "Context")
        ELSE IF Pending(m) THEN Fail(m, "ControlFlow") ELSE m
   ELSE LET tok == PeekTok(m1)  m == TakeTok(m1) IN
-       Build(IF tok.t = "lit" THEN Emit(m, OpLit(tok.v)) ELSE BuildWord(m, tok.s), depth0)
+       Build(IF tok.t = "lit" THEN Emit(m, OpLit(tok.v))
+             ELSE IF tok.t = "bad" THEN Fail(m, "Parse")          \* the lexer rejects the text of this token
+             ELSE BuildWord(m, tok.s), depth0)
 
 \* build0: a build-time error is located at the last token fetched
 Build0(m, depth0) == LET r == Build([m EXCEPT !.errtok = 0], depth0) IN
@@ -575,11 +579,47 @@ Build0(m, depth0) == LET r == Build([m EXCEPT !.errtok = 0], depth0) IN
 \* error skips the close in the pinned commit; see Interp.tla for the repaired submit)
 Intern(m, toks) == [m EXCEPT !.input = Append(@, [toks |-> toks, eof |-> (m.srcs + 1) * 1000]), !.srcs = @ + 1]
 
-Submit(m0, toks, mode) ==
+\* The pinned commit's build_from_source (kept for the regression configurations): the early
+\* return on error skips context_close, leaves the lexer with its unread text, the flow stack
+\* and the half-compiled code in place.
+SubmitLegacy(m0, toks, mode) ==
   LET a == Open([m0 EXCEPT !.err = "none", !.errv = NilV, !.errtok = 0], mode)
       b == Intern(a, toks)
       c == Build0(b, Len(b.nested)) IN
   IF Ok(c) THEN Close(c) ELSE c
+
+\* build_from (repaired): marks are taken at entry.
+\*  - a source rejected while it is read or compiled (including an error inside a meta block) is
+\*    unwound completely: pending input, contexts, flow stack, code, debug map, dictionary, heap,
+\*    the stacks and the reverse log go back to the marks -- as if it had never been submitted;
+\*  - a source that fails at run time keeps what it did, but mode and nesting go back and the
+\*    rest of its code is never executed (ip moves past the code);
+\*  - code whose run()/next() stopped on an error is abandoned by the next submission.
+Mark(m) == [ctx |-> m.ctx, nested |-> Len(m.nested), input |-> Len(m.input), cs |-> Len(m.code), fs |-> Len(m.fs),
+            rs |-> Len(m.rs), ls |-> Len(m.ls), ss |-> Len(m.ss), di |-> Len(m.dict), heap |-> Len(m.heap),
+            ds |-> Len(m.ds), rl |-> Len(m.rlog)]
+UnwindRun(m, k) == [m EXCEPT !.input = Take(@, k.input), !.nested = Take(@, k.nested), !.fs = Take(@, k.fs),
+                             !.ctx = [k.ctx EXCEPT !.ip = Len(m.code)], !.rf = FALSE]
+UnwindBuild(m, k) == [UnwindRun(m, k) EXCEPT !.ctx = k.ctx, !.code = Take(@, k.cs), !.dbg = Take(@, k.cs),
+                             !.rs = Take(@, k.rs), !.ls = Take(@, k.ls), !.ss = Take(@, k.ss),
+                             !.dict = Take(@, k.di), !.heap = Take(@, k.heap), !.ds = Take(@, k.ds),
+                             !.rlog = Take(@, k.rl)]
+Submit(m00, toks, mode) ==
+  IF "nounwind" \in Legacy THEN SubmitLegacy(m00, toks, mode) ELSE
+  LET m0 == IF m00.rf THEN [m00 EXCEPT !.rf = FALSE, !.ctx.ip = Len(m00.code)] ELSE m00
+      k == Mark(m0)
+      a == Open([m0 EXCEPT !.err = "none", !.errv = NilV, !.errtok = 0], mode)
+      b == Intern(a, toks)
+      c == Build0(b, Len(b.nested)) IN
+  IF ~Ok(c) THEN UnwindBuild(c, k)
+  ELSE LET d == Close(c) IN IF Ok(d) THEN d ELSE UnwindRun(d, k)
+
+\* Xstate::run / Xstate::next as API calls
+RunApi(m)  == LET r == Run([m EXCEPT !.err = "none", !.errv = NilV, !.errtok = 0, !.rf = FALSE]) IN
+              IF Ok(r) THEN r ELSE [r EXCEPT !.rf = TRUE]
+NextApi(m) == IF ~Running(m) THEN [m EXCEPT !.err = "none"]
+              ELSE LET r == Step([m EXCEPT !.err = "none", !.errv = NilV, !.errtok = 0, !.rf = FALSE]) IN
+                   IF Ok(r) THEN r ELSE [r EXCEPT !.rf = TRUE, !.errtok = IF Ip(r) < Len(r.dbg) THEN r.dbg[Ip(r) + 1] ELSE 0]
 
 \* token ids: source k (1-based), position p  ->  k * 1000 + p ; end of source k -> k * 1000
 Label(toks, k) == [p \in 1..Len(toks) |-> [toks[p] EXCEPT !.id = k * 1000 + p]]
